@@ -26,6 +26,9 @@ type FOp struct {
 	// (if the operation uses one) is rolled back and fails; "cancelled" the
 	// context is already cancelled.
 	Fault string `json:"fault,omitempty"`
+	// Back: save the offset of the Back-th most recent acknowledged append
+	// instead of the latest (a rewind); 0 = latest.
+	Back int `json:"back,omitempty"`
 }
 
 type FCase struct {
@@ -189,10 +192,14 @@ func RunInProc(c *FCase) *vkit.Outcome {
 				log = append(log, e)
 			case "save":
 				var off eventbus.Offset = "0"
+				skip := op.Back
 				for i := len(log) - 1; i >= 0; i-- {
 					if log[i].acked {
 						off = log[i].off
-						break
+						if skip == 0 {
+							break
+						}
+						skip--
 					}
 				}
 				err := st.SaveOffset(ctx, op.Sub, off)
